@@ -175,3 +175,18 @@ def update(tier: str, prop: str) -> list[dict]:
     if tier == "quick":
         return base
     return base + [dict(algo="PPO", n=4, T=16, E=3, nb=9), dict(algo="PPO", n=2, T=3, E=3, nb=1), dict(algo="A2C", n=1, T=9)]
+
+
+def storage(tier: str, prop: str) -> list[dict]:
+    base = [
+        dict(policy="ac", kind="discrete", dims=[3], obs_kind="box", alt_kind="discrete", alt_dims=[4], alt_obs_kind="box"),
+        dict(policy="ac", kind="box", dims=[2, 2], obs_kind="dict", alt_kind="box", alt_dims=[2], alt_obs_kind="dict"),
+        dict(policy="ac", kind="multidiscrete", dims=[2, 3], obs_kind="tuple", alt_kind="multidiscrete", alt_dims=[3, 3], alt_obs_kind="tuple"),
+        dict(policy="ac", kind="multibinary", dims=[3], obs_kind="box", alt_kind="multibinary", alt_dims=[3], alt_obs_kind="box", alt_D=5),
+        dict(policy="ac", kind="boxscalar", dims=[2], obs_kind="box", alt_kind="box", alt_dims=[2, 2], alt_obs_kind="box"),
+        dict(policy="q", kind="discrete", dims=[3], obs_kind="box", alt_kind="discrete", alt_dims=[5], alt_obs_kind="box"),
+        dict(policy="q", kind="discrete", dims=[2], obs_kind="dict", alt_kind="discrete", alt_dims=[2], alt_obs_kind="dict", alt_D=4),
+        dict(policy="sac", kind="box", dims=[2, 2], obs_kind="box", alt_kind="box", alt_dims=[2, 2, 2], alt_obs_kind="box"),
+        dict(policy="sac", kind="boxscalar", dims=[2], obs_kind="tuple", alt_kind="box", alt_dims=[2], alt_obs_kind="tuple"),
+    ]
+    return base
